@@ -14,6 +14,7 @@ Transforms (all purely syntactic and semantics-preserving for this package):
                (and is no method / property / class attribute), is read once into a local at the top of the method
   structconst  struct.pack('<fmt>', ...) / struct.unpack('<fmt>', x) -> a module-level precompiled struct.Struct constant
   boolwrap     ``if x:`` / ``while x:`` on a name or attribute -> ``if bool(x):``
+  renamepriv   every private function / method ``_x`` defined in the package is renamed ``_x_r`` (definition and every reference)
 """
 import ast, copy, os, shutil, sys
 
@@ -393,6 +394,44 @@ class BoolWrap(ast.NodeTransformer):
     visit_While = visit_If
 
 
+def _private_defs():
+    names = set()
+    for fn in sorted(os.listdir(SRC)):
+        if fn.endswith('.py'):
+            tree = ast.parse(open(os.path.join(SRC, fn)).read())
+            for n in ast.walk(tree):
+                if isinstance(n, (ast.FunctionDef, ast.AsyncFunctionDef)) and n.name.startswith('_') and not n.name.startswith('__'):
+                    names.add(n.name)
+    return names
+
+
+class RenamePriv(ast.NodeTransformer):
+    def __init__(self, names):
+        self.names = names
+
+    def visit_FunctionDef(self, node):
+        self.generic_visit(node)
+        if node.name in self.names:
+            node.name += '_r'
+        return node
+
+    def visit_Attribute(self, node):
+        self.generic_visit(node)
+        if node.attr in self.names:
+            node.attr += '_r'
+        return node
+
+    def visit_Name(self, node):
+        if node.id in self.names:
+            node.id += '_r'
+        return node
+
+    def visit_alias(self, node):
+        if node.name in self.names:
+            node.name += '_r'
+        return node
+
+
 def main():
     tr, out = sys.argv[1], sys.argv[2]
     index = _package_index() if tr in ('kwargs', 'cachelocal', 'all2') else None
@@ -450,6 +489,8 @@ def main():
                                   for fmt, nm in sc.consts.items()]
         elif tr == 'boolwrap':
             tree = BoolWrap().visit(tree)
+        elif tr == 'renamepriv':
+            tree = RenamePriv(_private_defs()).visit(tree)
         elif tr == 'all':
             for T in (Rename, SwapEq, FlipIf, ElseReturn, IfExpForm, YieldFrom, FString, TmpVar):
                 tree = T().visit(tree)
